@@ -29,7 +29,7 @@ var (
 )
 
 func TestVP_C17_Exit(t *testing.T) {
-	st := vp.NewStats("C17", "exit", "exit.Handler: histories of open(ok | refused port | forbidden address | destination closes at once), close, reset, double close, peer disconnect from 2 peers; non-trivial = history contains a failure-path event (dial failure, reset, destination close or peer disconnect with live tunnels)")
+	st := vp.NewStats("C17", "exit", "exit.Handler: histories of open(ok | refused port | forbidden address | destination closes at once | acknowledgement cannot be written | all-zero or low-order initiator key), close, reset, double close, peer disconnect from 2 peers; non-trivial = history contains a failure-path event (dial failure, reset, destination close or peer disconnect with live tunnels)")
 	defer st.Flush()
 	vpC17Once.Do(func() {
 		var err error
@@ -98,7 +98,7 @@ func TestVP_C17_Exit(t *testing.T) {
 						}
 					}
 				}
-				kind := rapid.SampledFrom([]string{"ok", "ok", "refused", "forbidden", "dest-closes", "ack-write-fails"}).Draw(t, "kind")
+				kind := rapid.SampledFrom([]string{"ok", "ok", "refused", "forbidden", "dest-closes", "ack-write-fails", "zero-key", "low-order-key"}).Draw(t, "kind")
 				addr, port := "127.0.0.1", uint16(vpC17Echo.Port)
 				switch kind {
 				case "refused":
@@ -110,7 +110,14 @@ func TestVP_C17_Exit(t *testing.T) {
 				}
 				nrep := len(w.Replies(id))
 				w.SetFailAck(kind == "ack-write-fails")
-				h.HandleStreamOpen(context.Background(), id, id, p, addr, port, remotePub)
+				pub := remotePub
+				switch kind {
+				case "zero-key": // no usable ephemeral key from the initiator
+					pub = [32]byte{}
+				case "low-order-key": // u = 1: the key agreement itself fails
+					pub = [32]byte{1}
+				}
+				h.HandleStreamOpen(context.Background(), id, id, p, addr, port, pub)
 				rep, ok := w.WaitReply(id, nrep+1, 5*time.Second)
 				if !ok {
 					t.Fatalf("VPFAIL C17 no reply to an open request (%s)\n  history: %s", kind, strings.Join(hist, "; "))
